@@ -5,8 +5,11 @@
 (* decisions of ts-rs (macros/src/utils.rs) transcribed next to it.        *)
 (*                                                                         *)
 (* A character is a record [c |-> one-character string, k |-> class] with  *)
-(* class in {"letter", "digit", "space", "nl", "punct", "other"}; "letter" *)
-(* covers everything that may start an identifier ($ and _ included).      *)
+(* class in {"letter", "digit", "cdigit", "space", "nl", "punct", "other"}; *)
+(* "letter" covers everything that may start an identifier ($ and _        *)
+(* included), "digit" the ASCII digits, "cdigit" the other decimal digits  *)
+(* (they continue an identifier but start neither an identifier nor a      *)
+(* numeric literal).                                                       *)
 (* A token is [t |-> kind, v |-> text (sequence of characters), nl |->     *)
 (* a line break precedes it] with kind in {"id", "num", "str", "p", "cmt"}.*)
 (***************************************************************************)
@@ -38,11 +41,11 @@ LexStep(st, ch) ==
          ELSE IF ch.c \in Puncts THEN [st EXCEPT !.out = Append(@, Tok("p", <<ch.c>>))]
          ELSE Err(st)                                            \* `, \, *, -, #, @ ... outside strings and comments
     [] st.mode = "id" ->
-         IF ch.k \in {"letter", "digit"} THEN [st EXCEPT !.cur = Append(@, ch.c)]
+         IF ch.k \in {"letter", "digit", "cdigit"} THEN [st EXCEPT !.cur = Append(@, ch.c)]
          ELSE LexStep(Emit(st, "id"), ch)
     [] st.mode = "num" ->
          IF ch.k = "digit" \/ ch.c = "." THEN [st EXCEPT !.cur = Append(@, ch.c)]
-         ELSE IF ch.k = "letter" THEN Err(st)                    \* 1abc
+         ELSE IF ch.k \in {"letter", "cdigit"} THEN Err(st)        \* 1abc
          ELSE LexStep(Emit(st, "num"), ch)
     [] st.mode \in {"dq", "sq"} ->
          IF ch.k = "nl" THEN Err(st)                             \* unterminated string literal
@@ -86,8 +89,8 @@ LexOK(toks) == toks # LexError
 \* raw_name_to_ts_field: alphanumeric / _ / $ only, and not starting with a digit (and not empty) => bare,
 \* else "value"; the value between the quotes is escaped (escape_ts_string: backslash, double quote, line break)
 NeedsQuotes(name) ==
-  \/ \E i \in DOMAIN name : name[i].k \notin {"letter", "digit"}
-  \/ (name # <<>> /\ name[1].k = "digit")
+  \/ \E i \in DOMAIN name : name[i].k \notin {"letter", "digit", "cdigit"}
+  \/ (name # <<>> /\ name[1].k \in {"digit", "cdigit"})          \* char::is_numeric
 DQ == Ch("\"", "punct")
 BSl == Ch("\\", "punct")
 RECURSIVE EscapeTs(_)
